@@ -1,0 +1,54 @@
+//go:build verif
+
+package signatureverify
+
+//@ spec func rsaOID(s string) bool = s == "1.2.840.113549.1.1.5" || s == "1.2.840.113549.1.1.14" || s == "1.2.840.113549.1.1.11" || s == "1.2.840.113549.1.1.12" || s == "1.2.840.113549.1.1.13"
+//@ spec func ecdsaOID(s string) bool = s == "1.2.840.10045.4.1" || s == "1.2.840.10045.4.3.1" || s == "1.2.840.10045.4.3.2" || s == "1.2.840.10045.4.3.3" || s == "1.2.840.10045.4.3.4"
+//@ spec func supportedOID(s string) bool = rsaOID(s) || ecdsaOID(s)
+//@ spec func hashOfOID(s string) int = ite(s == "1.2.840.113549.1.1.5" || s == "1.2.840.10045.4.1", crypto.SHA1, ite(s == "1.2.840.113549.1.1.14" || s == "1.2.840.10045.4.3.1", crypto.SHA224, ite(s == "1.2.840.113549.1.1.11" || s == "1.2.840.10045.4.3.2", crypto.SHA256, ite(s == "1.2.840.113549.1.1.12" || s == "1.2.840.10045.4.3.3", crypto.SHA384, crypto.SHA512))))
+//@ axiom oid_has_no_case: forall s string, t string :: supportedOID(s) && strfold(s, t) ==> s == t
+
+//@ global oidToHashAlgorithmMap invariant[C04] hash_table: oidToHashAlgorithmMap != nil && (forall s string :: has(oidToHashAlgorithmMap, s) <==> supportedOID(s)) && (forall s string :: supportedOID(s) ==> oidToHashAlgorithmMap[s] == hashOfOID(s))
+//@ global oidPrefixToVerifyStrategyMap invariant[C04] strategy_table: oidPrefixToVerifyStrategyMap != nil && (forall s string :: has(oidPrefixToVerifyStrategyMap, s) <==> (s == "1.2.840.113549" || s == "1.2.840.10045")) && typeis(oidPrefixToVerifyStrategyMap["1.2.840.113549"], *RSASignatureVerifyStrategy) && typeis(oidPrefixToVerifyStrategyMap["1.2.840.10045"], *ECDSASignatureVerifyStrategy)
+
+//@ func SignatureVerifyStrategy.VerifySignature
+//@   props C04
+//@   pure
+
+//@ func SignatureVerifyStrategy.GetAlgorithmID
+//@   props C04
+//@   pure
+
+//@ func RSASignatureVerifyStrategy.VerifySignature
+//@   props C04 C07
+//@   pure
+//@   ensures only_valid: err == nil ==> typeis(key, *rsa.PublicKey) && validRSA(as(key, *rsa.PublicKey), hash, content(calculatedSignature), content(signature))
+
+//@ func ECDSASignatureVerifyStrategy.VerifySignature
+//@   props C04 C07
+//@   pure
+//@   ensures only_valid: err == nil ==> typeis(key, *ecdsa.PublicKey) && called(Verify#1) && res(Verify#1) && arg(Verify#1, 0) == as(key, *ecdsa.PublicKey) && content(arg(Verify#1, 1)) == content(calculatedSignature)
+
+//@ func getHashAlgorithmFromOID
+//@   props C04 C07
+//@   pure
+//@   ensures sound: err == nil ==> ret != nil && supportedOID(oidString(content(target.Algorithm))) && *ret == hashOfOID(oidString(content(target.Algorithm)))
+//@   ensures complete: supportedOID(oidString(content(target.Algorithm))) ==> err == nil
+//@   loop 1 invariant forall s string :: visited(s) ==> !strfold(s, oidString(content(target.Algorithm)))
+
+//@ func getVerifyStrategyFromOID
+//@   props C04 C07
+//@   pure
+//@   ensures ret != nil
+//@   ensures rsa: rsaOID(oidString(content(target.Algorithm))) ==> typeis(ret, *RSASignatureVerifyStrategy)
+//@   ensures ec: ecdsaOID(oidString(content(target.Algorithm))) ==> typeis(ret, *ECDSASignatureVerifyStrategy)
+//@   loop 1 invariant forall s string :: visited(s) ==> !hasprefix(oidString(content(target.Algorithm)), s)
+
+//@ func LookupHashAndVerifyStrategies
+//@   props C04 C06 C07
+//@   pure
+//@   fresh r0
+//@   ensures sound: err == nil ==> ret != nil && ret.VerifyStrategy != nil && supportedOID(oidString(content(algoIdentifier.Algorithm))) && ret.HashStrategy == hashOfOID(oidString(content(algoIdentifier.Algorithm)))
+//@   ensures complete: supportedOID(oidString(content(algoIdentifier.Algorithm))) ==> err == nil
+//@   ensures rsa: err == nil && rsaOID(oidString(content(algoIdentifier.Algorithm))) ==> typeis(ret.VerifyStrategy, *RSASignatureVerifyStrategy)
+//@   ensures ec: err == nil && ecdsaOID(oidString(content(algoIdentifier.Algorithm))) ==> typeis(ret.VerifyStrategy, *ECDSASignatureVerifyStrategy)
